@@ -577,23 +577,14 @@ Proof.
   rewrite H. now destruct (g_nip11_outer_identity false true).
 Qed.
 
-(** ... which the current source does not do: with [Limitation == nil] the
-    returned middleware dereferences the nil pointer when it is applied
-    (defect F4).  The statement "no limitation block => identity" is refuted. *)
-Theorem nip11_no_limitation_identity_refuted :
-  exists d, no_limitation_block d /\ build_nip11 d = BPanic.
-Proof. exists DocNoLim. split; [exact I | reflexivity]. Qed.
-
-(* AFTER THE FIX (a nil guard for the limitation block, in either position
-   read by the translator) the generated guard changes, the theorem above
-   becomes false and is to be replaced by the full statement:
-
+(** ... which the source does since the repair of F4 (a nil guard for the
+    limitation block): no limitation block at all => the identity *)
 Theorem nip11_no_limitation_identity :
   forall d, no_limitation_block d -> build_nip11 d = BStack [].
 Proof.
   intros [| |l] H; [apply nip11_nil_identity | apply nip11_no_limitation_identity_guarded; reflexivity | destruct H].
 Qed.
-*)
+
 
 (** out of range: a negative count makes the constructor panic when the
     middleware is applied *)
